@@ -207,6 +207,32 @@ def observability_family(tier="quick"):
                 if tier == "quick" and mname == "fail" and iname in ("array", "string", "number", "true"):
                     continue
                 out.append(scenario("input-%s-%s-%s" % (iname, mname, typ.lower()), d, input=inp, typ=typ, family="input-%s-%s-%s" % (iname, mname, typ.lower())))
+    # an execution name used again after the first run has ended (the API does not refuse it): every surface must then tell the story of the second run
+    for typ in ("STANDARD", "EXPRESS"):
+        for mname, d in (("echo", chain(("A", Pass()), ("W", Wait(1)), ("Z", Pass()))), ("fail", failing)):
+            sc = scenario("name-reused-%s-%s" % (mname, typ.lower()), d, typ=typ, family="name-reused-%s-%s" % (mname, typ.lower()))
+            sc["starts"] = []
+            sc["script"] = [{"op": "start", "machine": "m", "name": "nightly", "input": {"n": 1}}, {"op": "start", "machine": "m", "name": "nightly", "input": {"n": 2}, "after_quiet": True}]
+            out.append(sc)
+    return out
+
+def history_api_family(tier="quick"):
+    """GetExecutionHistory read through the real REST front end at every point of an execution, forwards and with reverseOrder
+    (C09: 'reverseOrder returns exactly the reverse list'; a read must not disturb what later reads and later events see)."""
+    out = []
+    d = chain(("First", Pass(Result=1, ResultPath="$.a")), ("Pause", Wait(2)), ("Last", Pass()))
+    arn = exec_arn("m", "e1")
+    rd = lambda rev, **kw: dict({"op": "api", "action": "GetExecutionHistory", "params": dict({"executionArn": arn}, **({"reverseOrder": True} if rev else {})), "keep_body": True}, **kw)
+    for nm, reads in (("reverse-forward", [rd(True), rd(False)]), ("reverse-reverse", [rd(True), rd(True)]), ("forward-reverse-late", [rd(False), rd(True, after_quiet=True), rd(False, after_quiet=True)])):
+        sc = scenario("hist-api-" + nm, d, family="hist-api-" + nm, input={"k": 1})
+        sc["script"] = [dict(st, op="start") for st in sc["starts"]] + reads
+        sc["starts"] = []
+        out.append(sc)
+    dt = chain(("T", Task("f1", Catch=CATCH_ALL)), ("Z", Pass()))
+    sc = scenario("hist-api-task-fails", dt, family="hist-api-task-fails", workers={"f1": {"*": [["delay", ["err", "E1", "x"]]]}})
+    sc["script"] = [dict(st, op="start") for st in sc["starts"]] + [rd(True), rd(False, after_quiet=True)]
+    sc["starts"] = []
+    out.append(sc)
     return out
 
 def poison_corpus():
@@ -376,6 +402,11 @@ def fanout_ok_family(tier="quick"):
         inp={"rows": [[1, 2], [3]]}, workers={"fj": {"*": [["echo"]]}})
     add("par-in-map-mc1", chain(("M", Map(chain(("P", Parallel([_branch("A", 1), _branch("B", 1, "pass")]))), MaxConcurrency=1)), Z), inp=[1, 2],
         workers={"f_A1": {"*": [["echo"]]}})
+    # InputPath on the fan-out state itself: the saved raw input (for ResultPath and for the Map's re-entry between batches) is not the effective input
+    add("map-inputpath-mc2", chain(("M", Map(it, InputPath="$.order", ItemsPath="$.lines", MaxConcurrency=2, ResultPath="$.res")), Z),
+        inp={"order": {"lines": [1, 2, 3]}, "keep": True}, workers=echo, maxc={"fi": 2})
+    add("par-inputpath-resultpath", chain(("P", Parallel([_branch("A", 1), _branch("B", 1, "pass")], InputPath="$.order", ResultPath="$.res")), Z),
+        inp={"order": {"n": 1}, "keep": True}, workers={"f_A1": {"*": [["echo"]]}})
     if tier == "thorough":
         add("par-3x2", chain(("P", Parallel([_branch("A", 2), _branch("B", 2), _branch("C", 2)])), Z))
         add("par-4x1", chain(("P", Parallel([_branch(c, 1) for c in "ABCD"])), Z))
@@ -490,6 +521,14 @@ def child_family(tier="quick"):
     add("child-sync-parent-timeout-child-wait", chain(("L", launch("sync", TimeoutSeconds=2)), Z), child_wait, form="sync-timeout")
     add("child-sync-parent-timeout-child-task", chain(("L", launch("sync", TimeoutSeconds=2)), Z), child_slow, workers={"fslow": {"*": [["delay", ["ok", 1]]]}}, form="sync-timeout")
     add("child-sync-parent-timeout-caught", chain(("L", launch("sync", TimeoutSeconds=2, Catch=[{"ErrorEquals": ["States.Timeout"], "Next": "Z", "ResultPath": "$.err"}])), Z), child_wait, form="sync-timeout")
+    # the child ends by its *own* execution time-out (blocked in a Wait / in a Task) while the parent waits for it without a time-out of its own
+    cw = copy.deepcopy(child_wait); cw["TimeoutSeconds"] = 3
+    cs = copy.deepcopy(child_slow); cs["TimeoutSeconds"] = 3
+    for form in ("sync", "sync2"):
+        add("child-%s-child-times-out-in-wait" % form, chain(("L", launch(form)), Z), cw, form="sync-child-timeout")
+        add("child-%s-child-times-out-in-task" % form, chain(("L", launch(form)), Z), cs, workers={"fslow": {"*": [["delay", ["ok", 1]]]}}, form="sync-child-timeout")
+    add("child-sync-child-times-out-caught", chain(("L", launch("sync", Catch=[{"ErrorEquals": ["States.ALL"], "Next": "Z", "ResultPath": "$.err"}])), Z), cw, form="sync-child-timeout")
+    add("child-sdk-express-child-times-out", chain(("L", launch("sdk")), Z), cw, ctype="EXPRESS", form="sync-child-timeout")
     # parent inside Parallel / Map
     add("child-sync-in-parallel", chain(("P", Parallel([chain(("L", launch("sync"))), chain(("B1", Task("fb")))])), Z), child_ok, workers={"fb": {"*": OK("b")}}, form="sync-nested")
     add("child-sync-in-parallel-sibling-fails", chain(("P", Parallel([chain(("L", launch("sync"))), chain(("B1", Task("fb")))])), Z), child_wait, workers={"fb": {"*": ERR()}}, form="sync-terminated")
